@@ -52,22 +52,25 @@ PROPS = {
     ),
     "C17": dict(
         rules=[R("dispatch", "rule_metakey_tables"), R("dispatch", "rule_dispatch_refs"), R("dispatch", "rule_dispatch_order"),
-               R("dispatch", "rule_obj_defaults"), R("dispatch", "rule_dispatch_operands"), R("arith", "rule_rem_zero")],
+               R("dispatch", "rule_obj_defaults"), R("dispatch", "rule_dispatch_operands"), R("arith", "rule_rem_zero"),
+               R("dispatch", "rule_base_walk")],
         clause="The metakey tables are total and name-preserving end to end (R-METAKEY-TABLES); each operator function "
                "references only its own metakeys and object methods and applies its own number operation (R-DISPATCH-REFS); "
                "the arm priority equals the documented order with each metamap arm guarded by its own key "
                "(R-DISPATCH-ORDER); a function found under `@r…` runs with the right operand as its instance (R-DISPATCH-OPERANDS); KotoObject defaults report unimplemented or derive as documented (R-OBJ-DEFAULTS); "
-               "`x % y` and `x %= y` agree on the zero-divisor guard (R-REM-ZERO). Not decided: lookup order through @meta/@base, results of "
+               "`x % y` and `x %= y` agree on the zero-divisor guard (R-REM-ZERO); the loops that climb the `@base` chain look "
+               "entries up in the map they have climbed to (R-BASE-WALK). Not decided: lookup order through @meta/@base, results of "
                "overloaded operators, operands of host-object calls.",
         technique="table reconstruction from HIR arm lists and MIR aggregates; per-function reference census",
     ),
     "C20": dict(
-        rules=[R("interchange", "rule_serde_kinds"), R("interchange", "rule_serde_enc"), R("interchange", "rule_parse_err"), R("interchange", "rule_serde_narrow")],
+        rules=[R("interchange", "rule_serde_kinds"), R("interchange", "rule_serde_enc"), R("interchange", "rule_parse_err"), R("interchange", "rule_serde_narrow"),
+               R("strings", "rule_char_units")],
         clause="The kind tables of writer and reader agree in both directions: every serde method the KValue writer calls "
                "has a non-default visitor counterpart building the same kind, with no numeric conversion in the writer and "
                "checked narrowing in the visitor (R-SERDE-KINDS); every KValue kind the Rust-data Serializer produces for a "
                "serde kind is accepted by the Deserializer's method for that kind (R-SERDE-ENC); the JSON/YAML/TOML "
-               "libraries never unwrap a parse result (R-PARSE-ERR). integer requests of the Deserializer convert the number with a checked conversion (R-SERDE-NARROW). Not decided: round-trip equality of values, number "
+               "libraries never unwrap a parse result (R-PARSE-ERR). integer requests of the Deserializer convert the number with a checked conversion (R-SERDE-NARROW). an exact size test guarding char-wise reads counts chars, not bytes (R-CHAR-UNITS: deserialize_char). Not decided: round-trip equality of values, number "
                "formatting, text corner cases.",
         technique="writer/reader table reconstruction from match-lowered MIR (discriminant switches, aggregates, "
                   "unresolved trait-method calls)",
@@ -96,10 +99,11 @@ PROPS = {
         technique="field-read census + control-dependence region analysis + call-graph effect closure (proof obligations)",
     ),
     "C01": dict(
-        rules=[R("enc", "rule_enc"), R("enc", "rule_handlers"), R("arith", "rule_num_wrap"), R("arith", "rule_div_float"), R("enc", "rule_varint")],
+        rules=[R("enc", "rule_enc"), R("enc", "rule_handlers"), R("arith", "rule_num_wrap"), R("arith", "rule_div_float"), R("enc", "rule_varint"),
+               R("arith", "rule_float_notation")],
         clause="Every instruction the compiler emits has the byte layout its decoder reads, and every opcode / instruction "
                "has a consumer (R-ENC, R-HANDLERS); integer `+ - * % ^` and negation wrap and `/` always builds a float, by construction of KNumber's "
-               "operator impls (R-NUM-WRAP, R-DIV-FLOAT). the reader masks every var-int byte with 0x7f, matching the writer (R-VARINT). Not decided: result values, evaluation order, "
+               "operator impls (R-NUM-WRAP, R-DIV-FLOAT). the reader masks every var-int byte with 0x7f, matching the writer (R-VARINT); floats are rendered through Display, never through Debug / exponent formatting (R-FLOAT-NOTATION). Not decided: result values, evaluation order, "
                "short-circuiting, stale result registers, independence from surrounding code (properties of emitted "
                "code paths).",
         technique="Assert-terminator census and aggregate-variant census over the operator impls' MIR",
@@ -114,21 +118,25 @@ PROPS = {
         technique="generic-argument census of the parser's error constructors + MIR region/dominance analysis",
     ),
     "C11": dict(
-        rules=[R("front", "rule_fmt_fields"), R("front", "rule_fmt_variants"), R("front", "rule_column_bytes")],
+        rules=[R("front", "rule_fmt_fields"), R("front", "rule_fmt_variants"), R("front", "rule_column_bytes"),
+               R("front", "rule_fmt_spec"), R("front", "rule_line_offsets")],
         clause="Every syntax-carrying AST field is read by the formatter (R-FMT-FIELDS) and every Node variant has its "
                "own arm in format_node (R-FMT-VARIANTS): a field never read cannot influence the output; source text that "
                "is re-emitted verbatim (numbers, debug expressions) is not located by using a display column as a byte "
-               "offset (R-COLUMN-BYTES). Not decided: idempotence, comment order, how a field that is read gets rendered.",
+               "offset (R-COLUMN-BYTES); the fields of a string format spec are re-emitted independently of each other "
+               "(R-FMT-SPEC); line start offsets are never summed from the lengths of `lines()` items, which drop `\\r\\n` as well "
+               "as `\\n` (R-LINE-OFFSETS). Not decided: idempotence, comment order, how a field that is read gets rendered.",
         technique="field-read census over koto_format's MIR against the AST's ADT facts; HIR arm list; unit taint "
                   "(display column -> str slice bound) over expression trees",
     ),
     "C13": dict(
         rules=[R("iters", "rule_iter_copy"), R("iters", "rule_iter_err"), R("iters", "rule_iter_lazy"),
-               R("narrow", "rule_cursor")],
+               R("narrow", "rule_cursor"), R("iters", "rule_pull_one")],
         clause="Copies own copied inner iterators (R-ITER-COPY); iterator outputs that may carry an error are never "
                "dropped, including by std consumers that discard items (R-ITER-ERR); adaptor constructors pull nothing "
                "from their source (R-ITER-LAZY); exhausted iterators whose cursor overshoots can still be asked for their "
-               "size hint (R-CURSOR). Not decided: the sequences adaptors produce (cursor arithmetic), pull "
+               "size hint (R-CURSOR); a two-source adaptor looks at what one source produced before it pulls from the other "
+               "(R-PULL-ONE). Not decided: the sequences adaptors produce (cursor arithmetic), pull "
                "order inside next().",
         technique="type walk over ADT facts + MIR def-use (handle fields, output evidence) + call-graph reachability",
     ),
